@@ -24,7 +24,7 @@
                   gives exactly Model/Cache.v's `get` / `store` / `clear` (Proofs/EngineReal.v `real_get_erase`, `real_store_erase`,
                   `real_clear_erase`).
 
-   Counters (ghost, per node, never read by the recursion: no function below inspects a `stats` value):
+   Counters (ghost, per node, never read by the recursion; Proofs/EngineReal.v `gmemo_counters_irrelevant`):
        n_query  calls of compute_cached_layout on the node       n_hit    of which answered by the cache
        n_lossy  of which lossy (see `clossy`)                    n_eval   evaluations of the node's algorithm (incl. the display:none arm)
        n_meas   calls of the measure function made by those evaluations (`mcalls`: what one evaluation of the algorithm calls)
